@@ -98,6 +98,15 @@ Proof.
     intros E. apply Z.mul_eq_0 in E. tauto.
 Qed.
 
+(* clipping a power to its 0/1 support keeps what the loops use of it (reachdist after repo commit 2cf9619) *)
+Lemma pow_ok_clip d nP : pow_ok d nP -> pow_ok d (tab 0%Z n n (fun i j => b2z (znz (nP i j)))).
+Proof.
+  intros H i j Hi Hj. rewrite tab_spec by assumption. destruct (H i j Hi Hj) as [H0 H1].
+  unfold znz. destruct (Z.eqb_spec (nP i j) 0) as [E|E]; cbn [negb b2z].
+  - split; [lia|]. rewrite <- H1. split; intros; [lia|congruence].
+  - split; [lia|]. rewrite <- H1. split; intros; [exact E|lia].
+Qed.
+
 (* loop invariant at the head of the while, with n_python = d *)
 Record dinv (d : nat) (D : mat nat) (nP : mat Z) (Lm : mat bool) : Prop := {
   di_d : (1 <= d)%nat;
